@@ -31,7 +31,7 @@ PROPS = {
         level_text="Proof (round_trip): whatever WriteMessage(t, data) puts on the wire — any payload below 2^40 bytes, any write buffer size, either role — a connection of the opposite role reads as exactly (t, data) through any bufio size ≥ 125, any transport chunking and reads of any size, with no handler invoked and the following bytes untouched. Proof of the data transformations every message goes through, for all inputs: word-at-a-time masking = RFC byte-wise masking for every alignment/key/offset/length, masking involutive and offset-carrying across splits, truncWriter forwards all but the last 4 bytes for every chunking, strict frame decode inverts the writer's encode for every length < 2^63; the constructor always leaves room for a control frame (F4 repair) so a ping/pong of at most 125 bytes through WriteMessage is accepted and is exactly one control frame; the per-message round trip over the writer model (any buffer size, any split of writes, controls in between) and the reader's decoding of any conformant fragmentation are C02.message_roundtrip / C03.read_message. Tie: random write programs and random conformant streams run on the real package and on the compiled model, wire bytes and delivered bytes compared exactly; an independent RFC decoder/inflater judges sent vs delivered.",
         level_note="compress/flate and encoding/json are parameters; end-to-end composition through a real connected pair is checked by correspondence (stream pair), the theorem composition is per side.",
         lean=["WS.Props.C01"],
-        streams=[("w", 500, 12000), ("rconf", 500, 12000), ("unit", 300, 6000), ("pair", 150, 3000)],
+        streams=[("w", 500, 12000), ("rconf", 500, 12000), ("unit", 300, 6000), ("pair", 150, 3000), ("join", 150, 3000)],
         assumptions=[ASSUME_FLATE, ASSUME_BUFIO],
     ),
     "C02": P(
@@ -39,7 +39,7 @@ PROPS = {
         level_text="Proof: for every program over the write API, every buffer size, role, pool and compression setting and every environment answer, the wire of a fault-free connection is a concatenation of frames that the strict RFC 6455 decoder (written from the RFC in WS/Spec/Frame.lean; non-minimal lengths are undecodable) accepts, masked iff client; frame-record level well-formedness (RSV bits, fragmentation grammar, control frames) and payload content are WS.Lemmas.WireWF / Content; a compressed message is exactly one RSV1 message whose payload is the deflate stream minus its tail, however flate chunks its output; every client frame takes the next draw of the key source (key_per_frame) and servers never mask. Tie: exact wire bytes of the real package vs the model on random programs incl. prepared messages, compression toggles, pools; independent Go RFC decoder + inflater on the real wire.",
         level_note="crypto/rand quality is not modelled (site inventory pins newMaskKey/maskRand uses); flate output is an environment answer validated against the trunc spec. Finding F8 (a prepared data message sent while a writer was open landed between its fragments) was repaired (fix: aca3807): the writer is closed first, as NextWriter does; stream wf8 is the regression sentinel.",
         lean=["WS.Props.C02"],
-        streams=[("w", 800, 16000), ("wclose", 300, 6000), ("wf8", 150, 2000), ("sched", 120, 2000)],
+        streams=[("w", 800, 16000), ("wclose", 300, 6000), ("wf8", 150, 2000), ("sched", 120, 2000), ("wfault", 300, 6000)],
         assumptions=[ASSUME_FLATE],
     ),
     "C03": P(
@@ -79,14 +79,14 @@ PROPS = {
         level_text="Proof for the modelled code: the only panic the read path can produce is the documented one at the 1000th call on a failed connection; header reads and frame skips are bounded by what is asked for / present and end with an error on a short stream (no waiting for a claimed length); the models of the reader loops and of the header parsers are total functions whose recursion is bounded by the input length (accepted by Lean's termination checker). Go-level panics cannot arise in the model: they are covered by the regenerated inventory of every index / slice / make / type-assertion site in the functions fed by network input (a new or changed site breaks the tie) and by fuzz correspondence: mutated and random frame streams into connections of both roles with the model predicting every outcome exactly, random and mutated replies to Dial and to CONNECT, junk header values through the exported helpers, all under recover(), a watchdog and a TotalAlloc bound.",
         level_note="Partial: robustness of net/http, net/url, bufio, compress/flate and encoding/base64 internals is assumed; allocation is bounded by measurement in the fuzz streams plus the make-site inventory, not by a theorem about the Go allocator. Fuzzing supports the tie and the search for failing inputs; it is not the proof.",
         lean=["WS.Props.C07"],
-        streams=[("rfuzz", 1200, 30000), ("dfuzz", 200, 4000), ("unit", 400, 8000), ("srv", 300, 6000), ("cli", 300, 6000), ("rviol", 300, 6000)],
+        streams=[("rfuzz", 1200, 30000), ("dfuzz", 200, 4000), ("unit", 400, 8000), ("srv", 300, 6000), ("cli", 300, 6000), ("rviol", 300, 6000), ("origin", 300, 6000)],
     ),
     "C08": P(
         technique="Lean 4 theorems over the reader+writer model + differential correspondence",
         level_text="Proof: while a conformant message is read to its end the handler log grows by exactly the interleaved pings/pongs, in wire order, with exact payloads (any fragmentation, chunking, read sizes); a ping of 0..125 bytes is answered by one pong with the identical payload; a close with an accepted code and UTF-8 reason is handed to the handler once, echoed with the same code, and reported as CloseError{code, reason}; a handler error is permanent. Tie: controls at every position of 1-5-fragment messages, payload lengths {0,1,2,7,50,124,125}, all accepted close-code classes, default / recording / failing handlers, both roles; handler log and reply frames compared exactly; oracle: handler log = control frames in wire order, pongs = pings.",
         level_note="Default-handler theorems are proved for either role (default_*_any_role: a server-side reader unmasks with the frame's key); handlers_exactly_once is role-generic.",
         lean=["WS.Props.C08"],
-        streams=[("rconf", 900, 16000), ("rviol", 300, 6000), ("glue", 300, 6000)],
+        streams=[("rconf", 900, 16000), ("rviol", 300, 6000), ("glue", 300, 6000), ("rlimit", 300, 6000), ("sched", 60, 1000)],
         assumptions=[ASSUME_BUFIO],
     ),
     "C09": P(
